@@ -709,7 +709,7 @@ func GenC07(rng *h.Rng, tier string, emit func(string)) {
 		scale = 25
 	}
 	// (1) every call of the accumulate table, direct
-	for i := 0; i < 16000*scale; i++ {
+	for i := 0; i < 9000*scale; i++ {
 		g := newC07Gen(rng.Fork(), st, "acc")
 		id := pickCall(g.rng)
 		g.c.ID = fmt.Sprint(id)
@@ -721,7 +721,7 @@ func GenC07(rng *h.Rng, tier string, emit func(string)) {
 	}
 	// (2) the refine table: gas, fetch, historical_lookup, export, log
 	refCalls := []uint64{0, 1, 6, 6, 6, 7, 7, 7, 100}
-	for i := 0; i < 3000*scale; i++ {
+	for i := 0; i < 2000*scale; i++ {
 		g := newC07Gen(rng.Fork(), st, "ref")
 		id := refCalls[g.rng.Intn(len(refCalls))]
 		g.c.ID = fmt.Sprint(id)
@@ -732,7 +732,7 @@ func GenC07(rng *h.Rng, tier string, emit func(string)) {
 		st.Inc(fmt.Sprintf("ref-call-%d", id))
 	}
 	// (3) identifiers without an entry, direct through the table lookup of each invocation kind
-	for i := 0; i < 1500*scale; i++ {
+	for i := 0; i < 1200*scale; i++ {
 		kind := []string{"acc", "ref", "auth"}[i%3]
 		g := newC07Gen(rng.Fork(), st, kind)
 		id := unknownID(g.rng)
@@ -750,7 +750,7 @@ func GenC07(rng *h.Rng, tier string, emit func(string)) {
 		st.Inc("unknown-direct-" + kind)
 	}
 	// (4) through Host.HostCall: "ecalli imm; trap" for every identifier class
-	for i := 0; i < 2500*scale; i++ {
+	for i := 0; i < 2000*scale; i++ {
 		kind := []string{"dacc", "dacc", "dref", "dauth"}[i%4]
 		g := newC07Gen(rng.Fork(), st, kind)
 		var defined []uint64
